@@ -29,22 +29,37 @@
 (*      nesting-depth classes (Mode "deep"); the only allowed outcomes are *)
 (*      "ok" and "err" (AllowedOutcomes).                                  *)
 (*                                                                         *)
+(* (iv) The value of a field filter as a string of runes (Palette: word    *)
+(*      runes, separators and the wildcard, of every UTF-8 width 1..4,     *)
+(*      upper/lower case, an invalid byte).  "Several words on a text      *)
+(*      field are a conjunction": the words are the maximal runs of word   *)
+(*      runes (RefLits, declarative).  The byte-by-byte loops              *)
+(*      parser/seqql_filter.go:parseSeqQLText / parseSeqQLKeyword and the  *)
+(*      rune loops of parser/term_builder.go are transcribed over the      *)
+(*      encoded token (SeqQLText, SeqQLKw, LegacyToks) and TLC checks      *)
+(*      "algorithm = reference" for every rune string of the scope         *)
+(*      (ValueSplitsIntoWords), and that each phrase keeps its meaning     *)
+(*      under not / or / and-not / in(...) (PhraseContextsKeepMeaning).    *)
+(*                                                                         *)
 (* Modes (one cfg each): "tree" exhaustive source trees x styles,          *)
 (* "randtree" seeded random trees (-simulate), "gwalk" every sequence over *)
 (* the grammar lexemes, "walk" hostile sequences (exhaustive, or random    *)
-(* walks under -simulate), "deep" nesting classes.  Every state is emitted *)
+(* walks under -simulate), "deep" nesting classes, "phrase" every rune     *)
+(* string over the palette (exhaustive / random walks) as the value of a   *)
+(* text and of a keyword field in each context.  Every state is emitted    *)
 (* as a CASE; harness/cmd/parserdrv replays them into parser.ParseSeqQL /  *)
 (* ParseQuery / ParseAggregationFilter and GrpcV1.Search.                  *)
 (***************************************************************************)
 EXTENDS Integers, Sequences, FiniteSets, TLC, Json
 
-CONSTANTS Mode,         \* "tree" | "randtree" | "gwalk" | "walk" | "deep"
+CONSTANTS Mode,         \* "tree" | "randtree" | "gwalk" | "walk" | "deep" | "phrase"
           LeafSet,      \* "bool" | "rich" | "rich3"
           Depth,        \* depth bound of source trees
           ParenStyles,  \* subset of {"min", "full", "red"}
           SpellNames,   \* subset of {"s1", "s2", "s3", "s4"}
           EmitTrees,    \* TRUE: emit one sem case per (tree, paren, spell)
-          Alpha,        \* walk: "A" | "B" | "S";  gwalk: ignored
+          Alpha,        \* walk: "A" | "B" | "S" | "U";  phrase: "P" | "Q";  gwalk: ignored
+          Contexts,     \* phrase: subset of CtxNames
           MaxLen,       \* walk/gwalk: length bound of the walked prefix
           TailLen,      \* walk: every frontier prefix stands for all its extensions by <= TailLen lexemes
           DeepReps      \* deep: repetition counts (nesting depth classes)
@@ -71,7 +86,7 @@ Leaves == CASE LeafSet = "bool" -> BoolLeaves [] LeafSet = "rich" -> RichLeaves 
 \* mapping used for the semantic cases (seq.Mapping built by the driver from this record)
 FieldTypes == [a |-> "keyword", b |-> "keyword", c |-> "keyword", p |-> "path", t |-> "text"]
 
-IsLeaf(x) == x.op \in {"lit", "in", "words"}
+IsLeaf(x) == x.op \in {"lit", "in", "words", "phrase", "kw", "inp"}
 
 RECURSIVE T(_)
 T(n) == IF n = 0 THEN Leaves
@@ -84,6 +99,9 @@ RECURSIVE Ev(_, _)
 Ev(x, A) == CASE x.op = "lit"   -> <<x.f, x.w>> \in A
               [] x.op = "in"    -> \E i \in DOMAIN x.ws : <<x.f, x.ws[i]>> \in A
               [] x.op = "words" -> \A i \in DOMAIN x.ws : <<x.f, x.ws[i]>> \in A
+              \* (iv): a value written as runes; ws = its words (text field) / its one pattern (keyword field)
+              [] x.op \in {"phrase", "kw"} -> \A i \in DOMAIN x.ws : <<x.f, x.ws[i]>> \in A
+              [] x.op = "inp"   -> \E e \in DOMAIN x.els : \A i \in DOMAIN x.els[e].ws : <<x.f, x.els[e].ws[i]>> \in A
               [] x.op = "not"   -> ~Ev(x.l, A)
               [] x.op = "and"   -> Ev(x.l, A) /\ Ev(x.r, A)
               [] x.op = "or"    -> Ev(x.l, A) \/ Ev(x.r, A)
@@ -93,9 +111,123 @@ Ev(x, A) == CASE x.op = "lit"   -> <<x.f, x.w>> \in A
 
 RECURSIVE AtomsOf(_)
 AtomsOf(x) == CASE x.op = "lit" -> {<<x.f, x.w>>}
-                [] x.op \in {"in", "words"} -> {<<x.f, x.ws[i]>> : i \in DOMAIN x.ws}
+                [] x.op \in {"in", "words", "phrase", "kw"} -> {<<x.f, x.ws[i]>> : i \in DOMAIN x.ws}
+                [] x.op = "inp" -> UNION {{<<x.f, x.els[e].ws[i]>> : i \in DOMAIN x.els[e].ws} : e \in DOMAIN x.els}
                 [] x.op = "not" -> AtomsOf(x.l)
                 [] OTHER -> AtomsOf(x.l) \cup AtomsOf(x.r)
+
+\* ======================================================================
+\* (iv) the value of a field filter: runes, words, terms
+\* ======================================================================
+\* A rune of the palette.  n: its name in the emitted query (<U+XXXX> = the UTF-8 encoding of that code point,
+\* <BAD> = the byte 0xFF, <BS>* = an escaped asterisk);  c: its class in the text tokenizer -
+\* "w" word rune (unicode.IsLetter / IsNumber / '_' / the asterisk itself), "s" separator (everything else),
+\* "*" the wildcard;  b: number of bytes it occupies in the token the lexer hands to the field-filter parsers
+\* (the wildcard travels as the private rune U+E000: 3 bytes; an invalid byte is 1 byte that decodes to RuneError);
+\* lo: its name after lower-casing;  bare: it can be written outside quotes (lexer.Next / parseCompositeToken)
+Ru(n, c, b, lo, bare) == [n |-> n, c |-> c, b |-> b, lo |-> lo, bare |-> bare]
+Palette == <<
+  Ru("x", "w", 1, "x", TRUE),  Ru("y", "w", 1, "y", TRUE),  Ru("7", "w", 1, "7", TRUE),  Ru("_", "w", 1, "_", TRUE),
+  Ru("K", "w", 1, "k", TRUE),                                         \* upper case, 1 byte
+  Ru("<U+0436>", "w", 2, "<U+0436>", TRUE),                           \* Cyrillic zhe
+  Ru("<U+0416>", "w", 2, "<U+0436>", TRUE),                           \* its capital
+  Ru("<U+00BD>", "w", 2, "<U+00BD>", FALSE),                          \* vulgar fraction one half: IsNumber, not IsDigit
+  Ru("<U+65E5>", "w", 3, "<U+65E5>", TRUE),                           \* CJK ideograph
+  Ru("<U+10330>", "w", 4, "<U+10330>", TRUE),                         \* Gothic letter ahsa
+  Ru("<BS>*", "w", 1, "*", FALSE),                                    \* \* : the asterisk as a character of a word
+  Ru("<SP>", "s", 1, "<SP>", FALSE),  Ru("-", "s", 1, "-", TRUE),  Ru(".", "s", 1, ".", TRUE),
+  Ru(":", "s", 1, ":", FALSE),  Ru("#", "s", 1, "#", FALSE),  Ru(")", "s", 1, ")", FALSE),  Ru("<NL>", "s", 1, "<NL>", FALSE),
+  Ru("<U+00A0>", "s", 2, "<U+00A0>", FALSE),                          \* no-break space
+  Ru("<U+00AB>", "s", 2, "<U+00AB>", FALSE),                          \* left guillemet
+  Ru("<U+2014>", "s", 3, "<U+2014>", FALSE),                          \* em dash
+  Ru("<U+2026>", "s", 3, "<U+2026>", FALSE),                          \* horizontal ellipsis
+  Ru("<U+FFFD>", "s", 3, "<U+FFFD>", FALSE),                          \* a typed replacement character
+  Ru("<U+1F600>", "s", 4, "<U+1F600>", FALSE),                        \* emoji
+  Ru("<BAD>", "s", 1, "<U+FFFD>", FALSE),                             \* invalid UTF-8: one byte, decodes to (RuneError, 1)
+  Ru("*", "*", 3, "*", TRUE) >>
+PaletteNames == [i \in DOMAIN Palette |-> Palette[i].n]
+\* one rune per (class, width) - for longer exhaustive strings
+ClassNames == <<"x", "K", "<U+0436>", "<U+65E5>", "<U+10330>", "<SP>", "<U+00A0>", "<U+2014>", "<U+1F600>", "<BAD>", "*">>
+RuneOf(n) == Palette[CHOOSE i \in DOMAIN Palette : Palette[i].n = n]
+PhraseOf(names) == [i \in DOMAIN names |-> RuneOf(names[i])]
+
+TextTerm(d) == [k |-> "text", d |-> d]          \* parser.Term{Kind: TermText, Data: d}
+Sym == [k |-> "sym", d |-> "*"]                 \* newSymbolTerm('*')
+EmptyLit == <<TextTerm("")>>                    \* Literal{Terms: [text ""]}: "no tokens to search"
+RECURSIVE LowerOf(_, _, _)                      \* lower-cased spelling of runes a..b
+LowerOf(p, a, b) == IF a > b THEN "" ELSE p[a].lo \o LowerOf(p, a + 1, b)
+\* a literal (sequence of terms) as one string: the name of the atom <<field, pattern>>; <W> is the wildcard
+RECURSIVE PatOf(_)
+PatOf(ts) == IF ts = <<>> THEN "" ELSE (IF ts[1].k = "sym" THEN "<W>" ELSE ts[1].d) \o PatOf(Tail(ts))
+Pats(lits) == [i \in DOMAIN lits |-> PatOf(lits[i])]
+NoDoubleWild(p) == ~\E i \in 1..(Len(p) - 1) : p[i].c = "*" /\ p[i + 1].c = "*"
+
+\* ---- reference (declarative): maximal runs.  Runs(p, lo, hi, C) = the intervals <<a, b>> of lo..hi whose runes all
+\* have a class in C and that cannot be extended
+Runs(p, lo, hi, C) == {ab \in (lo..hi) \X (lo..hi) :
+                         /\ ab[1] <= ab[2] /\ \A k \in ab[1]..ab[2] : p[k].c \in C
+                         /\ (ab[1] = lo \/ p[ab[1] - 1].c \notin C) /\ (ab[2] = hi \/ p[ab[2] + 1].c \notin C)}
+RECURSIVE InOrder(_)
+InOrder(S) == IF S = {} THEN <<>> ELSE LET m == CHOOSE x \in S : \A y \in S : x[1] <= y[1] IN <<m>> \o InOrder(S \ {m})
+\* the terms of positions a..b: every maximal run of runes of class TC is a text term, every wildcard a symbol term
+RefTerms(p, a, b, TC) == LET iv == InOrder(Runs(p, a, b, TC) \cup {<<i, i>> : i \in {k \in a..b : p[k].c = "*"}}) IN
+                         [n \in DOMAIN iv |-> IF p[iv[n][1]].c = "*" THEN Sym ELSE TextTerm(LowerOf(p, iv[n][1], iv[n][2]))]
+\* text field: one literal per maximal run of non-separators (a word, possibly with wildcards), lower-cased;
+\* a value without a word searches the empty token
+RefLits(p) == LET W == InOrder(Runs(p, 1, Len(p), {"w", "*"})) IN
+              IF W = <<>> THEN <<EmptyLit>> ELSE [n \in DOMAIN W |-> RefTerms(p, W[n][1], W[n][2], {"w"})]
+\* keyword / path field: the whole value is one literal, cut into terms at the wildcards only
+RefKw(p) == IF p = <<>> THEN EmptyLit ELSE RefTerms(p, 1, Len(p), {"w", "s"})
+
+\* ---- the encoded token: byte <<i, k>> is the k-th byte of rune i
+RECURSIVE BytesFrom(_, _)
+BytesFrom(p, i) == IF i > Len(p) THEN <<>> ELSE [k \in 1..p[i].b |-> <<i, k>>] \o BytesFrom(p, i + 1)
+RuneError == Ru("<U+FFFD>", "s", 1, "<U+FFFD>", FALSE)
+\* utf8.DecodeRuneInString(token[j:]) -> rune, size: a whole encoding gives the rune and its width, a stray
+\* continuation byte (RuneError, 1)
+Decode(p, bs, j) == IF bs[j][2] = 1 THEN [r |-> p[bs[j][1]], size |-> p[bs[j][1]].b] ELSE [r |-> RuneError, size |-> 1]
+AppendText(terms, term) == IF term = "" THEN terms ELSE Append(terms, TextTerm(term))   \* appendTerm lower-cases: runes carry .lo
+AppendLit(toks, terms) == IF terms = <<>> THEN toks ELSE Append(toks, terms)
+
+\* ---- transcription: parser/seqql_filter.go parseSeqQLText (token = bs[j..]; toks: finished literals,
+\* cur: terms of the current literal, term: Data of the text term being collected)
+RECURSIVE STLoop(_, _, _, _, _, _)
+STLoop(p, bs, j, toks, cur, term) ==
+  IF j > Len(bs) THEN LET t == AppendLit(toks, AppendText(cur, term)) IN IF t = <<>> THEN <<EmptyLit>> ELSE t
+  ELSE LET d == Decode(p, bs, j) IN
+       IF d.r.c = "w" THEN STLoop(p, bs, j + d.size, toks, cur, term \o d.r.lo)          \* term.Data += string(r); token = token[size:]
+       ELSE IF d.r.c = "*" THEN STLoop(p, bs, j + d.size, toks, Append(AppendText(cur, term), Sym), "")
+       ELSE STLoop(p, bs, j + d.size, AppendLit(toks, AppendText(cur, term)), <<>>, "")  \* separator: new literal
+SeqQLText(p) == IF p = <<>> THEN <<EmptyLit>> ELSE STLoop(p, BytesFrom(p, 1), 1, <<>>, <<>>, "")
+
+\* ---- transcription: parser/seqql_filter.go parseSeqQLKeyword (b: the bytes.Buffer)
+RECURSIVE SKLoop(_, _, _, _, _)
+SKLoop(p, bs, j, terms, b) ==
+  IF j > Len(bs) THEN AppendText(terms, b)
+  ELSE LET d == Decode(p, bs, j) IN
+       IF d.r.c = "*" THEN SKLoop(p, bs, j + d.size, Append(AppendText(terms, b), Sym), "")
+       ELSE SKLoop(p, bs, j + d.size, terms, b \o d.r.lo)
+SeqQLKw(p) == IF p = <<>> THEN EmptyLit ELSE SKLoop(p, BytesFrom(p, 1), 1, <<>>, "")
+
+\* ---- transcription: parser/term_builder.go textTokenBuilder / keywordTokenBuilder driven by
+\* token_parser.go:parseQuotedTerms over []rune (text: only word runes are indexed; keyword: every rune).
+\* <<>> stands for the error "duplicate wildcard symbol"
+RECURSIVE LTLoop(_, _, _, _, _, _)
+LTLoop(p, i, toks, terms, term, isText) ==
+  IF i > Len(p) THEN LET t == AppendLit(toks, AppendText(terms, term)) IN IF t = <<>> THEN <<EmptyLit>> ELSE t   \* getTokens
+  ELSE IF p[i].c = "*" THEN
+         LET dup == term = "" /\ terms # <<>> /\ terms[Len(terms)] = Sym IN                     \* endsWithSymbol('*')
+         IF dup /\ isText THEN LTLoop(p, i + 1, AppendLit(toks, terms), <<Sym>>, "", isText)    \* finishToken; appendSymbolTerm
+         ELSE IF dup THEN <<>>
+         ELSE LTLoop(p, i + 1, toks, Append(AppendText(terms, term), Sym), "", isText)
+  ELSE IF p[i].c = "w" \/ ~isText THEN LTLoop(p, i + 1, toks, terms, term \o p[i].lo, isText)   \* appendRuneInternal (ToLower)
+  ELSE LTLoop(p, i + 1, AppendLit(toks, AppendText(terms, term)), <<>>, "", isText)            \* finishToken
+LegacyToks(p, isText) == LTLoop(p, 1, <<>>, <<>>, "", isText)
+
+\* leaves written as runes.  ws comes from the reference; LeafAst (what the parser builds) from the transcription
+PhraseLeaf(f, p) == [op |-> "phrase", f |-> f, rs |-> p, ws |-> Pats(RefLits(p))]
+KwLeaf(f, p) == [op |-> "kw", f |-> f, rs |-> p, ws |-> <<PatOf(RefKw(p))>>]
+InPLeaf(f, ps) == [op |-> "inp", f |-> f, els |-> [i \in DOMAIN ps |-> PhraseLeaf(f, ps[i])]]
 
 \* what the field-filter parsers build for a leaf:
 \*   parseFilterIn: left-associated OR of literals; parseSeqQLText / textTokenBuilder + buildAndTree:
@@ -103,9 +235,15 @@ AtomsOf(x) == CASE x.op = "lit" -> {<<x.f, x.w>>}
 RECURSIVE Chain(_, _, _)
 Chain(o, f, ws) == IF Len(ws) = 1 THEN Lit(f, ws[1])
                    ELSE Bin(o, Chain(o, f, SubSeq(ws, 1, Len(ws) - 1)), Lit(f, ws[Len(ws)]))
+RECURSIVE OrOfPhrases(_, _)
+OrOfPhrases(f, ps) == LET last == Chain("and", f, Pats(SeqQLText(ps[Len(ps)].rs))) IN
+                      IF Len(ps) = 1 THEN last ELSE Bin("or", OrOfPhrases(f, SubSeq(ps, 1, Len(ps) - 1)), last)
 LeafAst(x) == CASE x.op = "lit" -> x
                 [] x.op = "in" -> Chain("or", x.f, x.ws)
                 [] x.op = "words" -> Chain("and", x.f, x.ws)
+                [] x.op = "phrase" -> Chain("and", x.f, Pats(SeqQLText(x.rs)))      \* parseSeqQLText + buildAndTree
+                [] x.op = "kw" -> Lit(x.f, PatOf(SeqQLKw(x.rs)))                    \* parseSeqQLKeyword
+                [] x.op = "inp" -> OrOfPhrases(x.f, x.els)                          \* parseFilterIn over parseFulltextSearchFilter
 RECURSIVE Expand(_)
 Expand(x) == IF IsLeaf(x) THEN LeafAst(x)
              ELSE IF x.op = "not" THEN Not(Expand(x.l))
@@ -252,10 +390,20 @@ LegacyTree(s) == LET e == QExpr(s, 1, 0) IN IF e.ok /\ e.pos = Len(s) + 1 THEN e
 \* ---- concrete spelling.  Pieces are concatenated by the driver; <..> names are bytes that JSON or
 \* TLA+ strings cannot carry: <SP> space, <DQ> ", <SQ> ', <BQ> `, <BS> \, <NL> newline, <BAD> 0xFF,
 \* <PUA> U+E000 (the parser's private wildcard rune)
-SpellStyle(n) == CASE n = "s1" -> [up |-> FALSE, tight |-> FALSE, quote |-> "<DQ>", pipe |-> FALSE]
-                   [] n = "s2" -> [up |-> TRUE,  tight |-> TRUE,  quote |-> "<DQ>", pipe |-> FALSE]
-                   [] n = "s3" -> [up |-> FALSE, tight |-> TRUE,  quote |-> "<SQ>", pipe |-> TRUE]
-                   [] n = "s4" -> [up |-> TRUE,  tight |-> FALSE, quote |-> "<BQ>", pipe |-> FALSE]
+SpellStyle(n) == CASE n = "s1" -> [up |-> FALSE, tight |-> FALSE, quote |-> "<DQ>", pipe |-> FALSE, bare |-> FALSE]
+                   [] n = "s2" -> [up |-> TRUE,  tight |-> TRUE,  quote |-> "<DQ>", pipe |-> FALSE, bare |-> TRUE]
+                   [] n = "s3" -> [up |-> FALSE, tight |-> TRUE,  quote |-> "<SQ>", pipe |-> TRUE,  bare |-> TRUE]
+                   [] n = "s4" -> [up |-> TRUE,  tight |-> FALSE, quote |-> "<BQ>", pipe |-> FALSE, bare |-> FALSE]
+\* a value written as runes: outside quotes where the style and every rune allow it (and there is something to
+\* search: the legacy parser rejects a bare value without a word); a raw string cannot carry a wildcard or an escape
+Bareable(p) == p # <<>> /\ (\A i \in DOMAIN p : p[i].bare) /\ (\E i \in DOMAIN p : p[i].c # "s")
+NeedsUnquote(p) == \E i \in DOMAIN p : p[i].c = "*" \/ p[i].n = "<BS>*"
+SpellValue(p, sp) == LET names == [i \in DOMAIN p |-> p[i].n]
+                         q == IF sp.quote = "<BQ>" /\ NeedsUnquote(p) THEN "<DQ>" ELSE sp.quote IN
+                     IF sp.bare /\ Bareable(p) THEN names ELSE <<q>> \o names \o <<q>>
+RECURSIVE SpellValues(_, _, _)
+SpellValues(els, sp, sep) == IF Len(els) = 1 THEN SpellValue(els[1].rs, sp)
+                             ELSE SpellValue(els[1].rs, sp) \o sep \o SpellValues(Tail(els), sp, sep)
 RECURSIVE Join(_, _)
 Join(ws, sep) == IF Len(ws) = 1 THEN <<ws[1]>> ELSE <<ws[1]>> \o sep \o Join(Tail(ws), sep)
 SpellLeaf(x, sp) ==
@@ -263,6 +411,9 @@ SpellLeaf(x, sp) ==
     [] x.op = "in"    -> <<x.f, ":", (IF sp.up THEN "IN" ELSE "in"), "(">>
                           \o Join(x.ws, IF sp.tight THEN <<",">> ELSE <<",", "<SP>">>) \o <<")">>
     [] x.op = "words" -> <<x.f, ":", sp.quote>> \o Join(x.ws, <<"<SP>">>) \o <<sp.quote>>
+    [] x.op \in {"phrase", "kw"} -> <<x.f, ":">> \o SpellValue(x.rs, sp)
+    [] x.op = "inp"   -> <<x.f, ":", (IF sp.up THEN "IN" ELSE "in"), "(">>
+                          \o SpellValues(x.els, sp, IF sp.tight THEN <<",">> ELSE <<",", "<SP>">>) \o <<")">>
 SpellLx(lx, sp) ==
   IF lx.k = "leaf" THEN SpellLeaf(lx.leaf, sp)
   ELSE IF ~sp.up THEN <<lx.k>>
@@ -278,9 +429,12 @@ Spell(s, sp) == SpellSeq(s, sp) \o (IF sp.pipe THEN <<"<SP>", "|", "<SP>", "fiel
 
 HasOp(s, o) == \E i \in DOMAIN s : s[i].k = "leaf" /\ s[i].leaf.op = o
 \* the legacy language has no in(...), no pipes and only double quotes
-Langs(s, sp) == {"seqql"} \cup (IF ~HasOp(s, "in") /\ ~sp.pipe /\ sp.quote = "<DQ>" THEN {"legacy"} ELSE {})
+\* (and reads two adjacent wildcards in its own way: term_builder.go appendWildcard)
+LegacyCanWrite(x) == x.op \notin {"in", "inp"} /\ (x.op \in {"phrase", "kw"} => NoDoubleWild(x.rs))
+Langs(s, sp) == {"seqql"} \cup (IF (\A i \in DOMAIN s : s[i].k = "leaf" => LegacyCanWrite(s[i].leaf)) /\ ~sp.pipe /\ sp.quote = "<DQ>"
+                                THEN {"legacy"} ELSE {})
 \* with a nil mapping every field is a keyword field: same reading unless a text phrase is involved
-NilMappingToo(s) == ~HasOp(s, "words")
+NilMappingToo(s) == ~HasOp(s, "words") /\ ~HasOp(s, "phrase") /\ ~HasOp(s, "inp")
 
 RECURSIVE SetToSeq(_)
 SetToSeq(S) == IF S = {} THEN <<>> ELSE LET x == CHOOSE y \in S : TRUE IN <<x>> \o SetToSeq(S \ {x})
@@ -309,8 +463,13 @@ AlphaA == <<"f", ":", "x", "and", "or", "not", "(", ")", "*", "<DQ>", "<SQ>", "<
 AlphaB == <<"f", ":", "x", "(", ")", "[", "]", "{", "}", ",", "to", "in", "|", "fields", "<SP>", "*", "<DQ>", "-">>
 AlphaS == <<"f", ":", "x", "and", "not", "(", ")", "*", "<DQ>", "<SP>">>  \* short one, for the walk through the store
 AlphaG == <<"A", "B", "and", "or", "not", "(", ")">>                 \* gwalk: grammar-level names
+\* hostile walk around multi-byte runes: separators of 2, 3 and 4 bytes, a 2-byte letter, an invalid byte and the
+\* private wildcard rune next to quotes, escapes, wildcards and in(...)
+AlphaU == <<"f", ":", "x", "and", "(", ")", "in", ",", "*", "<DQ>", "<BS>", "<SP>", "<U+00A0>", "<U+2014>", "<U+1F600>",
+            "<U+0436>", "<BAD>", "<PUA>">>
 Alphabet == IF Mode = "gwalk" THEN AlphaG
-            ELSE CASE Alpha = "A" -> AlphaA [] Alpha = "B" -> AlphaB [] Alpha = "S" -> AlphaS
+            ELSE IF Mode = "phrase" THEN (IF Alpha = "Q" THEN ClassNames ELSE PaletteNames)
+            ELSE CASE Alpha = "A" -> AlphaA [] Alpha = "B" -> AlphaB [] Alpha = "S" -> AlphaS [] Alpha = "U" -> AlphaU
 \* how field f is mapped; "multi" = main type text + keyword sub-type, "unmapped" = non-nil mapping
 \* without f, "nil" = nil mapping
 MapTypes == <<"keyword", "text", "path", "exists", "object", "tags", "nested", "multi", "noop", "unmapped", "nil">>
@@ -332,6 +491,19 @@ DeepShapes == {[name |-> "paren",   open |-> <<"(">>, close |-> <<")">>],
 DeepCase(name, n) == LET sh == CHOOSE x \in DeepShapes : x.name = name IN
                      [kind |-> "deep", shape |-> name, open |-> sh.open, core |-> <<"f", ":", "x">>, close |-> sh.close,
                       n |-> n, maps |-> <<"keyword">>, allowed |-> AllowedOutcomes]
+
+\* the contexts a rune string is put into (Mode "phrase"): the value of text field t alone, under not, in an or,
+\* in an and-not, as first / last element of in(...), between two other phrases, and the value of keyword field a
+CtxNames == {"plain", "not", "or", "andnot", "in1", "in2", "mid", "kw"}
+CtxTree(c, p) == LET L == PhraseLeaf("t", p)  O == Lit("a", "x")  Y == <<RuneOf("y")>> IN
+  CASE c = "plain"  -> L
+    [] c = "not"    -> Not(L)
+    [] c = "or"     -> Bin("or", L, O)
+    [] c = "andnot" -> Bin("and", O, Not(L))
+    [] c = "in1"    -> InPLeaf("t", <<p, Y>>)
+    [] c = "in2"    -> Bin("and", Not(O), InPLeaf("t", <<Y, p, <<RuneOf("7")>>>>))
+    [] c = "mid"    -> PhraseLeaf("t", <<RuneOf("y"), RuneOf("<U+2014>")>> \o p \o <<RuneOf("<U+00A0>"), RuneOf("7")>>)
+    [] c = "kw"     -> Bin("or", KwLeaf("a", p), Lit("b", "x"))
 
 GLx(n) == CASE n = "A" -> LeafLx(Lit("a", "x")) [] n = "B" -> LeafLx(Lit("b", "x")) [] OTHER -> Kw(n)
 GSeq(p) == [i \in DOMAIN p |-> GLx(p[i])]
@@ -367,7 +539,7 @@ RandStep(z) == /\ Mode = "randtree"
                /\ tr' = RandTree(Depth)
                /\ sty' = [paren |-> Pick(ParenStyles), spell |-> Pick(SpellNames)]
                /\ UNCHANGED <<grown, pre, rep>>
-Walk == /\ Mode \in {"walk", "gwalk"} /\ Len(pre) < MaxLen
+Walk == /\ Mode \in {"walk", "gwalk", "phrase"} /\ Len(pre) < MaxLen
         /\ \E i \in DOMAIN Alphabet : pre' = Append(pre, Alphabet[i])
         /\ UNCHANGED <<tr, sty, grown, rep>>
 Deep == /\ Mode = "deep" /\ rep = 0
@@ -412,6 +584,23 @@ AcceptsExactlyTheGrammar ==
                                 /\ SameMeaning(Norm(e.ast), e.ast, AtomsOfSeq(s))
                                 /\ TopNotOnly(Norm(e.ast)))
 
+\* (iv) every rune string: the byte loops of the field-filter parsers cut it into exactly the words (terms) of the
+\* reference - a word is made of whole runes, every separator of whatever width separates and nothing else does
+ValueSplitsIntoWords ==
+  Mode = "phrase" => LET p == PhraseOf(pre) IN
+                     /\ SeqQLText(p) = RefLits(p)
+                     /\ SeqQLKw(p) = RefKw(p)
+                     /\ (NoDoubleWild(p) => /\ LegacyToks(p, TRUE) = RefLits(p)
+                                            /\ LegacyToks(p, FALSE) = <<RefKw(p)>>)
+\* ... and the written expression around it keeps its meaning through both accumulator parsers and propagateNot
+PhraseContextsKeepMeaning ==
+  Mode = "phrase" => \A c \in Contexts :
+                       LET x == CtxTree(c, PhraseOf(pre))  s == Render(x, "min")  e == SeqQLTree(s) IN
+                       /\ WF(s) /\ e.ok /\ LegacyTree(s) = e
+                       /\ SameMeaning(e.ast, x, AtomsOf(x))
+                       /\ SameMeaning(Norm(e.ast), x, AtomsOf(x))
+                       /\ TopNotOnly(Norm(e.ast))
+
 \* ======================================================================
 \* emission
 \* ======================================================================
@@ -423,6 +612,12 @@ Emit ==
     [] Mode = "gwalk" ->
          (pre = <<>> \/ ~WF(GSeq(pre))
             \/ PrintT(<<"CASE", ToJson(SemCase(GSeq(pre), SpellStyle(IF Len(pre) % 2 = 0 THEN "s1" ELSE "s2"), "gwalk", NoAst))>>))
+    [] Mode = "phrase" ->
+         \* (what an invalid byte inside a keyword value is lower-cased to is not part of the property: not emitted)
+         \A c \in Contexts : \A sn \in SpellNames :
+            LET x == CtxTree(c, PhraseOf(pre)) IN
+            \/ c = "kw" /\ \E i \in DOMAIN pre : pre[i] = "<BAD>"
+            \/ PrintT(<<"CASE", ToJson(SemCase(Render(x, "min"), SpellStyle(sn), c, x))>>)
     [] Mode = "walk" ->
          PrintT(<<"CASE", ToJson(TotCase(pre))>>)
     [] Mode = "deep" ->
